@@ -6,6 +6,8 @@ package main
 import (
 	"fmt"
 	"go/types"
+	"math"
+	"strconv"
 
 	"golang.org/x/tools/go/ssa"
 )
@@ -166,6 +168,13 @@ func init() {
 		},
 		"vIdentical": func(x *Exec, fr *frame, fn *ssa.Function, a []Value) Value {
 			return x.ts.Bool(x.identical(a[0], a[1]))
+		},
+		"vFormatFloatJSON": func(x *Exec, fr *frame, fn *ssa.Function, a []Value) Value {
+			f := a[0].(*Term)
+			if f.IsConst() {
+				return nil2str(x, f)
+			}
+			return x.symFloatText(f, &x.floatTextsJSON)
 		},
 		"vLowerByte": func(x *Exec, fr *frame, fn *ssa.Function, a []Value) Value {
 			c := a[0].(*Term)
@@ -611,4 +620,22 @@ func (x *Exec) identical(a, b Value) bool {
 		return true
 	}
 	return false
+}
+
+func nil2str(x *Exec, f *Term) Value {
+	v := math.Float64frombits(f.C)
+	abs := math.Abs(v)
+	fmtc := byte('f')
+	if abs != 0 && (abs < 1e-6 || abs >= 1e21) {
+		fmtc = 'e'
+	}
+	b := strconv.AppendFloat(nil, v, fmtc, -1, 64)
+	if fmtc == 'e' {
+		n := len(b)
+		if n >= 4 && b[n-4] == 'e' && b[n-3] == '-' && b[n-2] == '0' {
+			b[n-2] = b[n-1]
+			b = b[:n-1]
+		}
+	}
+	return x.ts.StrOf(string(b))
 }
